@@ -74,6 +74,43 @@ def run(tier, seed, work, replay):
                    "cloud-role) with a draining and a stalled subscriber attached to the real CONNECT endpoint, event bytes matched "
                    "to response bytes; recorder: systematic (save at every prefix, retention, order) and TLC-simulated histories of "
                    "record / time passing / save / load / expire through the package's own functions")
+    # part 3: the recorder's event loop (snapshot cache, delayed save, restart) - KMRecorderLoop
+    E.tlc_mc(work, "KMRecorderLoop", "MC_KMRecorderLoop.cfg", cov)
+    r = E.tlc(work, "KMRecorderLoop", "Neg_KMRecorderLoop_KeepsSnapshotOnSsh.cfg", timeout=300, tag="neg-loop")
+    if not r["violated"]:
+        raise E.Inconclusive("negative control Neg_KMRecorderLoop_KeepsSnapshotOnSsh found no violation")
+    Q, SV, RS = {"op": "query"}, {"op": "save"}, {"op": "restart"}
+
+    def EV(k):
+        return {"op": "event", "kind": k}
+    kinds = ["auth", "splogin", "ssh", "weblogin", "x509"]
+    loops = []
+    for k in kinds:
+        # a query caches the snapshot; an event of kind k follows; what is served and what is saved must contain it
+        loops.append({"steps": [EV("weblogin"), Q, EV(k), Q, SV, RS, Q], "origin": "query-then-" + k})
+        loops.append({"steps": [EV("auth"), SV, EV(k), SV, RS, Q], "origin": "save-then-" + k})
+        loops.append({"steps": [EV(k), EV("x509"), Q, RS, Q], "origin": "unsaved-" + k})
+    rng = __import__("random").Random(seed)
+    for _ in range(6 if tier == "quick" else 40):
+        st = []
+        for _ in range(rng.randint(3, 8)):
+            st.append(rng.choice([EV(rng.choice(kinds)), EV(rng.choice(kinds)), Q]))
+        loops.append({"steps": st + [SV, RS, Q], "origin": "random"})
+    lcp = work.path("loop-cases.ndjson")
+    E.write_ndjson(lcp, loops)
+    lp, _ = E.run_harness(rbin, "C20loop", work, cases=lcp, events=work.path("events-loop.ndjson"), cwd=os.path.join(E.REPO, "eventmon/eventrecorder"))
+    lev = E.read_ndjson(lp)
+    ldevs = E.monitor(work, "Trace_KMRecorderLoop", "Trace_KMRecorderLoop.cfg", lp, cov)
+    cov["recorder_loop_runs"] = len(loops)
+    cov["evaluations"] += len(lev)
+    cov["traces_validated_against_impl"] += len(loops)
+    for d in ldevs:
+        ev = lev[d["line"] - 1]
+        hist = loops[ev["trace"]]["steps"][:ev["step"]]
+        lastk = [s["kind"] for s in hist if s["op"] == "event"][-1:] or ["none"]
+        sig = {"action": "RecorderLoop:" + ev["ev"], "guards": d["guards"], "last_event_kind": lastk[0]}
+        if res.classify(sig, {"event": ev, "history": loops[ev["trace"]]}, known) == "violation":
+            res.sample({"deviation": d, "event": ev})
     res.sample(sev[0])
     res.sample(rev[1:4])
     for d in devs:
